@@ -632,21 +632,26 @@ func NondetAddr(name string) Addr {
 }
 
 // PRIMITIVE. NondetAddrStr is an abstract account string for transactions that only compare such
-// strings and test their syntactic validity: symbolically an arbitrary string of at most 6 bytes
-// whose validity is an uninterpreted predicate of the string; natively a valid string is realised as
-// the bech32 address of sha256(bytes)[:20] (an injective realisation) and an invalid one as the
-// bytes themselves.
+// strings and test their syntactic validity: symbolically a core of at most 5 printable non-space
+// ASCII bytes whose validity is an uninterpreted predicate of the core, optionally preceded by one
+// space (which makes it invalid). Natively a valid core is realised as the bech32 address of
+// sha256(core)[:20] (an injective realisation) and an invalid one as the bytes themselves.
 func NondetAddrStr(name string) (string, bool) {
-	bz := NondetBytes(name, 6)
-	if valUint(name+"_valid") != 0 {
+	bz := NondetBytes(name, 5)
+	core := string(bz)
+	ok := valUint(name+"_valid") != 0
+	if ok {
 		h := sha256.Sum256(append([]byte("verif-addr:"), bz...))
 		s, err := sdk.Bech32ifyAddressBytes(sdk.GetConfig().GetBech32AccountAddrPrefix(), h[:20])
 		if err != nil {
 			panic(err)
 		}
-		return s, true
+		core = s
 	}
-	return string(bz), false
+	if valUint(name+"_pad") != 0 {
+		return " " + core, false
+	}
+	return core, ok
 }
 
 // PRIMITIVE. ByteAt is s[i], or 0 when i is out of range (never panics, never forks).
